@@ -538,13 +538,15 @@ def c13(ctx):
         return judge_wm(ctx, out, "c13" + mode)
 
     n = 60 if ctx.quick else 500
-    jobs = [("seq", i, n) for i in range(4)] + [("conc", 10 + i, n) for i in range(4)]
+    jobs = [("seq", i, n) for i in range(4)] + [("conc", 10 + i, n) for i in range(4)] + \
+        [("stampede", 20, 40 if ctx.quick else 400)]
     for st in ctx.par(ex, range(8), workers=8) + ctx.par(rnd, jobs, workers=8):
         for k in total:
             total[k] += st[k]
     total["exhaustive_sequences"] = len(scen)
     std_cov(ctx, total, "every call sequence of length <= %d over Begin/Done of 3 indices and WaitForMark, replayed on "
-                        "the real WaterMark with DoneUntil observed after every call; random longer sequences (repeated "
+                        "the real WaterMark with DoneUntil observed after every call; stampedes of 400 waiters reading DoneUntil right after "
+                        "WaitForMark returned; random longer sequences (repeated "
                         "indices, out-of-order completion, Done without Begin); concurrent drivers (2-4 goroutines). "
                         "Each recorded execution is validated by TLC against Watermark.tla with the channel send and "
                         "the consumer steps as silent steps; non-trivial = the mark moved or a wait was involved"
